@@ -685,6 +685,45 @@ def run_ins_draw(c):
 
 
 # --------------------------------------------------------------------------------------------------------
+def run_stat(c):
+    """VALIDATION ONLY (not part of the proof): the pool of a trained FlowProposal against brute-force rejection sampling
+    from the prior restricted to the same latent contour, two-sample KS test per coordinate."""
+    import torch
+    torch.set_num_threads(1)
+    from scipy import stats
+    from nessai.proposal.flowproposal import FlowProposal
+    np.random.seed(c["seed"])
+    torch.manual_seed(c["seed"])
+    model = make_model(c["prior"])
+    tmp = tempfile.mkdtemp(prefix="c09s_", dir=os.getcwd())
+    p = FlowProposal(model, poolsize=c["N"], drawsize=c["N"], output=tmp, plot=False, latent_prior="truncated_gaussian",
+                     constant_volume_mode=True, update_poolsize=False, flow_config={"n_blocks": 2, "n_neurons": 8},
+                     training_config={"max_epochs": 60, "patience": 20}, accumulate_weights=c.get("acc", False))
+    p.initialise()
+    x = model.new_point(2000)
+    x["logL"] = model.raw_lik(x)
+    x["logP"] = model.raw_prior(x)
+    live = x[np.argsort(x["logL"])[1000:]]
+    p.train(live, plot=False)
+    with np.errstate(all="ignore"):
+        p.populate(live[0], N=c["N"], plot=False)
+    pool = p.samples.copy()
+    r = p.r
+    brute = []
+    while sum(len(b) for b in brute) < c["N"] and len(brute) < 400:
+        y = model.new_point(5000)
+        with np.errstate(all="ignore"):
+            z, _ = p.forward_pass(y, rescale=True, compute_radius=True)
+        keep = np.sqrt(np.sum(z ** 2, axis=1)) <= r
+        brute.append(y[keep])
+    brute = np.concatenate(brute)
+    out = {"n_pool": int(pool.size), "n_brute": int(brute.size), "radius": float(r)}
+    for nm in model.names:
+        out["ks_p_" + nm] = float(stats.ks_2samp(pool[nm], brute[nm]).pvalue)
+    return out
+
+
+# --------------------------------------------------------------------------------------------------------
 def main():
     import logging
     logging.disable(logging.CRITICAL)
@@ -697,7 +736,7 @@ def main():
     job = json.load(sys.stdin)
     out = {}
     table = {"flow": run_flow_case, "rej": run_rej_case, "radial": run_radial, "prims": run_prims,
-             "real": run_real, "ins": run_ins_draw}
+             "real": run_real, "ins": run_ins_draw, "stat": run_stat}
     for kind, fn in table.items():
         res = []
         for c in job.get(kind, []):
